@@ -274,6 +274,11 @@ func (s State) envv(cache string, extra []string) []string {
 	if s.GOOS != "" {
 		env = append(env, "GOOS="+s.GOOS)
 	}
+	if os.Getenv("GOMAXPROCS") == "" {
+		// several histories run in parallel; keep each staticcheck / go list from spinning up one thread per core
+		// (GOMAXPROCS is not an input of the analysis: it only sizes the runner's semaphore)
+		env = append(env, "GOMAXPROCS=4")
+	}
 	var ks []string
 	for k := range s.ExtraEnv {
 		ks = append(ks, k)
@@ -591,6 +596,9 @@ var envFlips []string
 
 func flippers(thorough bool) []flipper {
 	fl := []flipper{
+		// the expensive ones first (test variants pull in the testing closure; a new GOOS recompiles everything)
+		{"Tests", nil, func(s *State) { s.Tests = true }},
+		{"GOOS", nil, func(s *State) { s.GOOS = "windows" }},
 		{"Files:target", nil, func(s *State) { s.TargetVariant = 1 }},
 		{"DepFacts:deprecated-comment-only", nil, func(s *State) { s.LeafDeprecated = false }},
 		{"DepFacts:purity", nil, func(s *State) { s.LeafPure = false }},
@@ -599,8 +607,6 @@ func flippers(thorough bool) []flipper {
 		{"GoMod:go-directive", nil, func(s *State) { s.GoDirective = "1.21" }},
 		{"FlagGo", nil, func(s *State) { s.FlagGo = "1.21" }},
 		{"Tags", nil, func(s *State) { s.Tags = "extra" }},
-		{"GOOS", nil, func(s *State) { s.GOOS = "windows" }},
-		{"Tests", nil, func(s *State) { s.Tests = true }},
 		{"FlagChecks", nil, func(s *State) { s.Checks = "SA1019" }},
 		{"FlagChecks:widen", func(s *State) { s.Checks = "SA1019" }, func(s *State) { s.Checks = "" }},
 		{"Cfg:Checks:widen", func(s *State) { s.Conf["target"] = Conf{Present: true, Checks: `"SA4017"`} }, func(s *State) { delete(s.Conf, "target") }},
@@ -864,25 +870,25 @@ func main() {
 
 	var wg sync.WaitGroup
 	sem := make(chan struct{}, *par)
+	var ep *EnvProbe
+	if *probe {
+		wg.Add(1)
+		sem <- struct{}{}
+		go func() {
+			defer wg.Done()
+			defer func() { <-sem }()
+			ep = envProbe(*work)
+		}()
+	}
 	for i := range hs {
 		wg.Add(1)
+		sem <- struct{}{}
 		go func(i int) {
 			defer wg.Done()
-			sem <- struct{}{}
 			defer func() { <-sem }()
 			plans[i](hs[i])
 			os.RemoveAll(hs[i].hdir)
 		}(i)
-	}
-	var ep *EnvProbe
-	if *probe {
-		wg.Add(1)
-		go func() {
-			defer wg.Done()
-			sem <- struct{}{}
-			defer func() { <-sem }()
-			ep = envProbe(*work)
-		}()
 	}
 	wg.Wait()
 	o := Out{Seed: *seed, Binaries: binaries, EnvProbe: ep, Histories: len(hs)}
